@@ -168,20 +168,37 @@ def selftest_verdict(d):
     # out-of-plane point: direct quadrature of Biot-Savart over the three filaments
     Xo = X[0] + d["z"] * nrm
     if abs(d["z"]) >= 0.2:  # the plain Gauss-Legendre quadrature is only accurate away from the filaments
-        def quad(P0, dirv, L, n=20000):
-            # Gauss-Legendre on [0, L]; for the semi-infinite legs map s = t/(1-t)
-            t, wq = np.polynomial.legendre.leggauss(400)
-            if np.isinf(L):
+        def quad(P0, dirv, L):
+            """composite Gauss-Legendre along the filament P0 + s*dirv, s in [0, L]: panels graded geometrically around the
+            foot of the perpendicular from the evaluation point (the integrand ~ h / (h^2 + (s - s0)^2)^1.5 has width h
+            there), the tail of a semi-infinite leg mapped with s = s1 + t / (1 - t)"""
+            t, wq = np.polynomial.legendre.leggauss(48)
+            s0 = float((Xo - P0) @ dirv)
+            h = max(float(np.linalg.norm((Xo - P0) - s0 * dirv)), 1e-3)
+            far = 4096.0
+            brk = {0.0}
+            k = 0.5
+            while k <= far:
+                for sgn in (-1.0, 1.0):
+                    brk.add(s0 + sgn * k * h)
+                k *= 2.0
+            brk.add(s0)
+            top = L if np.isfinite(L) else max(s0, 0.0) + far * h
+            brk = sorted(x for x in brk if 0.0 <= x < top) + [top]
+            total = np.zeros(3)
+
+            def piece(sgrid, jac):
+                pts = P0[None, :] + sgrid[:, None] * dirv[None, :]
+                r = Xo[None, :] - pts
+                integrand = np.cross(np.tile(dirv, (len(sgrid), 1)), r) / np.linalg.norm(r, axis=1)[:, None] ** 3
+                return (integrand * (wq * jac)[:, None]).sum(axis=0)
+
+            for lo_, hi_ in zip(brk[:-1], brk[1:]):
+                total += piece(0.5 * (hi_ - lo_) * (t + 1.0) + lo_, 0.5 * (hi_ - lo_) * np.ones_like(t))
+            if not np.isfinite(L):
                 tt = 0.5 * (t + 1.0)
-                sgrid = tt / (1.0 - tt)
-                jac = 0.5 / (1.0 - tt) ** 2
-            else:
-                sgrid = 0.5 * L * (t + 1.0)
-                jac = 0.5 * L * np.ones_like(t)
-            pts = P0[None, :] + sgrid[:, None] * dirv[None, :]
-            r = Xo[None, :] - pts
-            integrand = np.cross(np.tile(dirv, (len(sgrid), 1)), r) / np.linalg.norm(r, axis=1)[:, None] ** 3
-            return (integrand * (wq * jac)[:, None]).sum(axis=0) / (4 * np.pi)
+                total += piece(top + tt / (1.0 - tt), 0.5 / (1.0 - tt) ** 2)
+            return total / (4 * np.pi)
         ey = np.array([0.0, 1.0, 0.0])
         vq = quad(V[0, 1], -ey, b) + quad(V[0, 0], u, np.inf) - quad(V[0, 1], u, np.inf)
         vo = ref_vlm.ring(V, 0, 0, True, u, Xo[None, :])[0]
